@@ -9,7 +9,8 @@
 (* bytes of ITS OWN file and range, whatever the others did meanwhile.         *)
 EXTENDS AssetRange
 
-CONSTANTS Procs, PoolIds
+CONSTANTS Procs, PoolIds,
+          ConcSet   \* "small" | "large": which requests the processes choose from
 VARIABLES pc,      \* p -> "idle" | "lookup" | "read" | "range" | "write" | "done"
           rq,      \* p -> the request
           plan,    \* p -> parsed range
@@ -25,10 +26,10 @@ MCReps == [id \in DOMAIN Raw |->
 
 CPaths == {p \in SmallPathCases : p.url \in {"/assets/a.txt", "/assets/sub/a.txt", "/assets/s.js"}}
 CRanges == {NoRange, FROM(0), AB(1, 2), FROM(2), AB(0, 0), FROM(9)}
-ConcRequests == IF Cardinality(Procs) <= 2
+ConcRequests == IF ConcSet = "large"
                   THEN {[method |-> me, path |-> p, range |-> r] : me \in {"GET", "HEAD"}, p \in CPaths, r \in CRanges}
                   ELSE {[method |-> "GET", path |-> p, range |-> r] : p \in {q \in CPaths : q.url # "/assets/s.js"},
-                                                                     r \in {NoRange, AB(1, 2), FROM(1)}}
+                                                                     r \in {NoRange, AB(1, 2), FROM(1), FROM(0)}}
 NoReq == [method |-> "", path |-> <<>>, range |-> NoRange]
 InOf(req) == [method |-> req.method, min |-> cfg, prime |-> "", path |-> req.path, range |-> req.range]
 
